@@ -5,7 +5,7 @@
    KProg: a small program with client scribbles run on the implementation; its outputs against the outputs
          of the model machine (Alias/AliasModel.v, fixed code) on the same program.
    Depends on model files only. *)
-From GL Require Import Base.Bytes Alias.Heap Alias.AliasModel.
+From GL Require Import Base.Bytes Alias.Heap Alias.AliasModel Alias.XModel Alias.ApiModes.
 From Coq Require Import String.
 Local Open Scope N_scope.
 
@@ -132,11 +132,39 @@ Definition obs_ok (md : modes) (nopool : bool) (cachemode : N) (snap : bool) (hp
     match md PIterValue c with Slice => true | Copy => cls =? 0 end
   else false.
 
+(* ---- second pass: iterator exposures in both directions, blocks held by an iterator's children ---- *)
+
+Definition acc_of (a : N) : acckind := if a =? 0 then KDB else if a =? 1 then KSnap else KTxn.
+(* 0 after a forward movement (First, Seek, Next), 1 after a backward one (Last, Prev, Seek-then-Prev),
+   2 the slices the caller kept across Release *)
+Definition dir_of (d : N) : idir := if d =? 1 then DBwd else DFwd.
+
+(* what the harness saw of a slice exposed by Key() / Value(): its address class (0 inside no DB-side buffer, 1 a
+   cached block, 2..4 an arena, 5 a buffer that is in the buffer pool right now) and whether it starts at the
+   iterator's own buffer (dbIter.key / dbIter.value) — against what the per-method table delivers *)
+Definition iterx_ok (xmd : xmodes) (nopool : bool) (cachemode : N) (snap : bool) (a d : N) (isvalue : bool) (cls : N) (own : bool) : bool :=
+  let c := mk_config nopool cachemode snap in
+  let m := if isvalue then ApiIterValue (acc_of a) (dir_of d) else ApiIterKey (acc_of a) (dir_of d) in
+  match delivered fixed_modes xmd m c InTable with
+  | DIterBuffer => (cls =? 0) && own && honours DIterBuffer (promised m)
+  | _ => false
+  end.
+
+(* the census of the blocks an iterator's children hold, against the shape of [single_owner]: a handle is on a block
+   the cache still has, a private buffer is neither cached nor pooled nor held twice, and without a block cache there
+   are no handles *)
+Definition held_ok (nopool : bool) (cachemode : N) (ncached nowned : N) (cached_in_cache owned_in_cache owned_in_pool owned_dup : bool) : bool :=
+  let c := mk_config nopool cachemode false in
+  (cache_on c || (ncached =? 0)) && cached_in_cache && negb owned_in_cache && negb owned_in_pool && negb owned_dup
+  && (negb nopool || negb owned_in_pool).
+
 (* ---- cases ---- *)
 
 Inductive c20case :=
 | KObs (nopool : bool) (cachemode : N) (snap : bool) (hpath loc cls : N) (capshape : bool)
-| KProg (nopool : bool) (cachemode : N) (snap : bool) (blk1 : N) (ops : list kop) (outs : list kout).
+| KProg (nopool : bool) (cachemode : N) (snap : bool) (blk1 : N) (ops : list kop) (outs : list kout)
+| KIterX (nopool : bool) (cachemode : N) (snap : bool) (acc dir : N) (isvalue : bool) (cls : N) (own : bool)
+| KHeld (nopool : bool) (cachemode : N) (ncached nowned : N) (cached_in_cache owned_in_cache owned_in_pool owned_dup : bool).
 
 Definition run_case (x : c20case) : bool :=
   match x with
@@ -144,6 +172,8 @@ Definition run_case (x : c20case) : bool :=
   | KProg nopool cm snap b ops outs =>
       let c := {| pool_on := negb nopool; cache_on := negb (cm =? 1); snappy := snap; blk := N.to_nat b |} in
       outs_eqb (outputs fixed_modes c (map conv ops)) outs
+  | KIterX nopool cm snap a d isv cls own => iterx_ok xfixed nopool cm snap a d isv cls own
+  | KHeld nopool cm nc no cic oic oip od => held_ok nopool cm nc no cic oic oip od
   end.
 
 Fixpoint mism_from {A} (f : A -> bool) (i : N) (l : list A) : list N :=
